@@ -357,7 +357,21 @@ fn chunker_config_from_params<R>(
     p: dict::ChunkerParameters,
 ) -> Result<chunker::Config, ArchiveError<R>> {
     use dict::chunker_parameters::ChunkingAlgorithm;
-    match ChunkingAlgorithm::try_from(p.chunking_algorithm) {
+    let algorithm = ChunkingAlgorithm::try_from(p.chunking_algorithm);
+    // Parameters no chunker can work with (it would panic or never make progress).
+    let valid = match algorithm {
+        Ok(ChunkingAlgorithm::Buzhash) | Ok(ChunkingAlgorithm::Rollsum) => {
+            p.rolling_hash_window_size > 0
+                && p.max_chunk_size > 0
+                && p.min_chunk_size <= p.max_chunk_size
+        }
+        Ok(ChunkingAlgorithm::FixedSize) => p.max_chunk_size > 0,
+        Err(_) => true,
+    };
+    if !valid {
+        return Err(ArchiveError::invalid_archive("invalid chunker parameters"));
+    }
+    match algorithm {
         Ok(ChunkingAlgorithm::Buzhash) => Ok(chunker::Config::BuzHash(chunker::FilterConfig {
             filter_bits: chunker::FilterBits::from_bits(p.chunk_filter_bits),
             min_chunk_size: p.min_chunk_size as usize,
